@@ -255,13 +255,24 @@ def leaked_paths(d, regs, path=''):
                 yield x
 
 
-def check_spec_pair(ctx, A, B, spec, label):
+def check_spec_pair(ctx, A, B, spec, label, configured=None):
     import nbdime
     ctx.count('evaluations')
     ctx.count('nontrivial')
     ctx.count('path_level_cases')
     regs = spec_regions(spec)
     case = {'A': A, 'B': B, 'ignore_mapping': spec, 'label': label, 'path_level': True}
+    cls = ''
+    if configured and configured[1]:
+        case['configured_mapping'], case['flags'] = configured[0], list(configured[1])
+        # classifier: process_diff_flags -> set_notebook_diff_targets rewrites all nine paths of its table as soon as any category flag is given; a path whose
+        # category is not ignored by the flags is *reset*, which drops a mapping the configuration file put on that very path
+        ignored_cats = {'-D': 'details', '-M': 'metadata'}
+        cats = {ignored_cats[f] for f in configured[1]}
+        table = {'/cells/*': 'details', '/cells/*/outputs/*': 'details', '/metadata': 'metadata', '/cells/*/metadata': 'metadata', '/cells/*/outputs/*/metadata': 'metadata',
+                 '/cells/*/source': 'sources', '/cells/*/outputs': 'outputs', '/cells/*/attachments': 'attachments', '/cells/*/id': 'id'}
+        if any(p in table and table[p] not in cats for p in configured[0]):
+            cls = 'flags-reset-mapping|'
     try:
         with time_limit(30):
             d = json.loads(json.dumps(nbdime.diff_notebooks(U.to_node(A), U.to_node(B))))
@@ -270,7 +281,7 @@ def check_spec_pair(ctx, A, B, spec, label):
         return
     name = '+'.join(sorted('%s=%s' % (p, 'all' if v is True else 'keys') for p, v in spec.items()))
     for p, op in leaked_paths(d, regs):
-        ctx.violation('%s|PATH-LEAK|%s|%s' % (PROP, p, op), 'diff reports %s at %s although the Ignore mapping %r covers it' % (op, p, spec), case)
+        ctx.violation('%s|PATH-LEAK|%s%s|%s' % (PROP, cls, p, op), 'diff reports %s at %s although the Ignore mapping %r covers it' % (op, p, spec), case)
     try:
         got = ref_patch(A, d)
         if canon(proj_regions(got, regs)) != canon(proj_regions(B, regs)):
@@ -284,10 +295,33 @@ def check_spec_pair(ctx, A, B, spec, label):
     if ch and all(in_regions(p, regs) for p in ch) and not any(r.startswith('/cells/*/source') for r in regs):
         ctx.count('path_level_hidden_edits')
         if d:
-            ctx.violation('%s|PATH-NOT-EMPTY|%s' % (PROP, name), 'notebooks differ only inside the Ignore mapping %r but the diff is not empty' % (spec,), case)
+            ctx.violation('%s|PATH-NOT-EMPTY|%s%s' % (PROP, cls, name), 'notebooks differ only inside the Ignore mapping %r but the diff is not empty' % (spec,), case)
 
 
-def configure_mapping(spec, workdir):
+# an Ignore mapping from the configuration file *together with* category flags on the command line: both must take effect, also where they meet on
+# one differ path (a key list from the file and the execution_count filter of -D both live on /cells/* and /cells/*/outputs/*)
+FLAG_REGIONS = {
+    '-D': {'/cells/*': ['execution_count'], '/cells/*/outputs/*': ['execution_count']},
+    '-M': {'/metadata': True, '/cells/*/metadata': True, '/cells/*/outputs/*/metadata': True},
+}
+COMBINED_SPECS = [
+    ({'/cells/*/outputs/*': ['metadata']}, ('-D',)), ({'/cells/*': ['metadata']}, ('-D',)), ({'/cells/*/outputs/*': ['metadata'], '/cells/*': ['metadata']}, ('-D',)),
+    ({'/metadata': ['kernelspec']}, ('-D',)), ({'/cells/*': ['execution_count']}, ('-M',)), ({'/cells/*/outputs/*': ['execution_count']}, ('-D', '-M')),
+]
+
+
+def merged_spec(spec, flags):
+    out = {p: (v if v is True else list(v)) for p, v in spec.items()}
+    for f in flags:
+        for p, v in FLAG_REGIONS[f].items():
+            if v is True or out.get(p) is True:
+                out[p] = True
+            else:
+                out[p] = sorted(set(out.get(p, [])) | set(v))
+    return out
+
+
+def configure_mapping(spec, workdir, flags=()):
     from nbdime import nbdiffapp
     from nbdime.args import process_diff_flags
     isolate.reset_globals()
@@ -297,7 +331,7 @@ def configure_mapping(spec, workdir):
     so, se = sys.stdout, sys.stderr
     sys.stdout, sys.stderr = io.StringIO(), io.StringIO()
     try:
-        args = nbdiffapp._build_arg_parser(prog='nbdiff').parse_args(['a.ipynb', 'b.ipynb'])
+        args = nbdiffapp._build_arg_parser(prog='nbdiff').parse_args(list(flags) + ['a.ipynb', 'b.ipynb'])
         process_diff_flags(args)
     finally:
         sys.stdout, sys.stderr = so, se
@@ -314,10 +348,15 @@ def _shard(sh, ctx):
         work = tempfile.mkdtemp(prefix='c14p-', dir=isolate.scratch_root())
         try:
             for spec in specs:
-                configure_mapping(spec, work)
+                flags = ()
+                if isinstance(spec, tuple):
+                    spec, flags = spec
+                configure_mapping(spec, work, flags)
+                ctx.seen('forms', 'mapping+flags' if flags else 'mapping')
+                eff = merged_spec(spec, flags)
                 for label, tags, x in d1:
-                    check_spec_pair(ctx, seed, x, spec, '%s->%s' % (sname, label))
-                    check_spec_pair(ctx, x, seed, spec, '%s<-%s' % (sname, label))
+                    check_spec_pair(ctx, seed, x, eff, '%s->%s%s' % (sname, label, ' ' + ' '.join(flags) if flags else ''), configured=(spec, flags))
+                    check_spec_pair(ctx, x, seed, eff, '%s<-%s%s' % (sname, label, ' ' + ' '.join(flags) if flags else ''), configured=(spec, flags))
                 ctx.sample({'seed': sname, 'ignore_mapping': spec, 'edits': len(d1)}, rank=(sname, repr(spec)))
         finally:
             os.chdir('/')
@@ -437,6 +476,8 @@ def run(tier, seed):
             shards.append(('subsets', n, ch))
         for spec in PATH_SPECS:
             shards.append(('pathspecs', n, [spec]))
+        for spec in COMBINED_SPECS:
+            shards.append(('pathspecs', n, [spec]))
     ctx = run_shards(_shard, shards, seed=seed, label=PROP)
     ev = ctx.counters['evaluations']
     return Result(
@@ -474,7 +515,7 @@ def replay(case, ctx):
     if not case.get('path_level'):
         configure(case['form'], S, work)
     if case.get('path_level'):
-        configure_mapping(case['ignore_mapping'], work)
+        configure_mapping(case.get('configured_mapping', case['ignore_mapping']), work, tuple(case.get('flags', ())))
         check_spec_pair(ctx, case['A'], case['B'], case['ignore_mapping'], case.get('label', ''))
         isolate.reset_globals()
         return
